@@ -102,6 +102,7 @@ def scripts(tier, seed, scale=1):
                 lines = ["c open %d" % w]
                 for k, idh in enumerate(ids(w)):
                     lines.append("c req %s %s" % ((idh + ["7a", "", "6100", "00"][k % 4]) or "-", ",".join(seq)))
+                lines += ["c req %s discard" % ((i + "7a") or "-") for i in ids(w)]
                 lines += ["c dreply 0 4444", "c dreply 0 none", "c dreply 1 none", "c dreply 2 -", "c close", "c dreply 3 46", "c dreply 4 none", "c req 0001 ret:0"]
                 out.append(("c:%d/%s" % (w, "+".join(a.replace(":", "") for a in seq)), lines))
     # requester side of the C connection: requests with fresh ids, the peer's answers (ids with the mark) in every order
@@ -115,6 +116,7 @@ def scripts(tier, seed, scale=1):
                     lines += ["c await %d" % (10 + k), "c send %02x" % (0x61 + k)]
                 for j, i in enumerate(order):
                     lines.append("c req %s%02x ret:0" % (mk(w, i), 0x41 + j))
+                lines += ["c req %s66 discard" % mk(w, j + 1) for j in range(n)] + ["c req %s05 discard" % ("00" * (w - 1) if w else "")]
                 lines += ["c await 20", "c await 21", "c send 7a", "c req %s55 reply:41" % mk(w, n + 1), "c req %s01%s reply:4142" % ("00" * (w - 1), ""), "c close"]
                 out.append(("cr:%d/%d/%s" % (w, n, "".join(map(str, order))), lines))
     out.append(("s:long", ["s open 2", "s req 0007" + "61" * 300 + " reply:" + "62" * 300, "s req 0008" + "00" * 40 + " ret:-1", "s close",
